@@ -28,9 +28,10 @@ func init() {
 			"built from those parameter sets (and, for 1 case in 8, an init segment via SetAVCDescriptor/SetHEVCDescriptor), and 8 slice (segment) headers each followed by 0-40 " +
 			"payload bytes (zero runs so that emulation prevention bytes fall inside and right after the header). Value records are drawn inside the syntax the parsers implement " +
 			"(AVC: 16 profile_idc values with/without the high-profile block, chroma 0-3, scaling lists incl. early stop and useDefault, poc type 0/1/2, frame/field/MBAFF, cropping, " +
-			"VUI with NAL/VCL HRD, FMO map types 0-6, PPS transform8x8/scaling/second offset, NAL types 1/2/5/19, slice types 0-9, RPLM, pred weight table, MMCO 1-6; " +
+			"VUI with NAL/VCL HRD, FMO map types 0-6 (type 6 half of the time with runs of equal slice_group_id, i.e. zero bytes and emulation prevention bytes ahead of the more_rbsp_data( ) decision), PPS transform8x8/scaling/second offset, NAL types 1/2/5/19, slice types 0-9, RPLM, pred weight table, MMCO 1-6; " +
 			"HEVC: 1-7 sub-layers, conformance window, scaling list data, PCM, 0-16 short-term RPS incl. inter RPS prediction, long-term pictures, VUI with HRD and sub-pic params, " +
-			"range/multilayer/3D/SCC extensions of SPS and PPS, tiles, slice segment headers of all VCL NAL types, dependent segments, RPS by index or in the header, list modification, " +
+			"range/multilayer/3D/SCC extensions of SPS and PPS, sps_/pps_extension_data_flag runs of 0-100 flags (half of the parameter sets with an extension: whole bytes placed at byte-aligned positions, " +
+			"so that the more_rbsp_data( ) loop meets 00 00 03 0x, 00 00 04, 00 03 and literal 03 bytes), tiles, slice segment headers of all VCL NAL types, dependent segments, RPS by index or in the header, list modification, " +
 			"weights, entry points, header extension). Every syntax element the reference emitted and the parser exposes is compared (elements not coded are not compared), plus width/height " +
 			"by the cropping formula, slice-header Size, configuration records (field by field, the encoded bytes read independently, and Decode(Encode)), and codec strings parsed back. " +
 			"A case is non-trivial when its parameter sets and slices were serialized and handed to the parsers; distinct_nontrivial counts distinct hashes of the NAL bytes of a case; " +
